@@ -131,7 +131,11 @@ func primeChecks(a vh.Args, res *vh.Result, g *genCtx) {
 			primeReq{"blumpair", 256}, primeReq{"safepair", 64}, primeReq{"blum", 20}, primeReq{"blum", 33}, primeReq{"safe", 20}, primeReq{"safe", 33}, primeReq{"prime", 20})
 	}
 	for _, q := range reqs {
-		for i := 0; i < reps; i++ {
+		n := reps
+		if a.Tier != "thorough" && (strings.HasSuffix(q.form, "pair") || (q.form == "safe" && q.bits >= 32) || q.bits >= 128) {
+			n = 1 // the expensive generators once in the quick tier
+		}
+		for i := 0; i < n; i++ {
 			checkPrimes(a, res, q, i)
 		}
 	}
